@@ -81,6 +81,12 @@ impl Monitor for C01 {
     fn generate(&self, r: &mut Rng, _tier: Tier, _i: u64) -> SolverCase {
         let (name, cfg) = pick_family(r, FAMILIES);
         let (name, (u, p)) = if r.chance(1, 30) { ("conflict-chain", crate::gener::conflict_chain(r)) } else if r.chance(1, 20) { ("soft-backjump", crate::gener::soft_backjump(r)) } else if r.chance(1, 20) { ("soft-learn-reject", crate::gener::soft_learn_reject(r)) } else if r.chance(1, 25) { ("soft-exempt", crate::gener::soft_exempt(r)) } else { (name, crate::gener::generate(r, &cfg)) };
+        let (name, (u, p)) = if r.chance(1, 400) && !crate::report::small() {
+            let perms = crate::gener::huge_perms(&u, r);
+            ("huge-ids", u.renumber(&p, &perms[0], &perms[1], &perms[2], &perms[3], &perms[4]))
+        } else {
+            (name, (u, p))
+        };
         SolverCase { family: name.into(), u, p, runs: standard_runs(r, 2) }
     }
     fn check(&self, c: &SolverCase, ctx: &mut Ctx) {
